@@ -221,3 +221,73 @@ func scenarioVoteSignatureReplay(c *Ctx) *Net {
 	net.drainExcept("")
 	return net
 }
+
+// foreign-instance-future: while a correct member lags at height 1, a Byzantine member sends it a PREPREPARE,
+// PREPARE and COMMIT for height 2 that are validly signed but carry ANOTHER instance id (as a sibling instance
+// sharing the keys would produce them), and the same for height 1 (dropped at once).  The member then receives
+// the traffic of height 1, commits, and starts height 2: nothing of the other instance may reach its term.
+func scenarioForeignInstanceFuture(c *Ctx) *Net {
+	net := NewNet(c, NetOpts{N: 4, Weights: []uint64{1, 1, 1, 1}, ByzIdx: []int{3}, Inst: 100}, "foreign-instance-future n=4 byz=[3]")
+	net.timely = true
+	net.start()
+	a := net.adv
+	L := net.nodes[string(memberId(2))]
+	byz := memberId(3)
+	foreign := uint64(1100)
+	var held []*Flight
+	// the others decide height 1 (the Byzantine member helps with by-the-book PREPARE / COMMIT)
+	var hash []byte
+	for _, f := range net.pool {
+		if pp, ok := interfaces.ToConsensusMessage(f.Raw).(*interfaces.PreprepareMessage); ok {
+			hash = pp.Content().SignedHeader().BlockHash()
+		}
+	}
+	if hash == nil || L == nil {
+		c.Class("scenario/foreign-instance-future/not-reached")
+		return net
+	}
+	for _, hh := range []uint64{1, 2} {
+		blk := a.newBlock(hh, false)
+		ld := a.leaderOf(0)
+		if a.isByz(ld) {
+			a.inject(L, a.mkPP(ld, foreign, hh, 0, blk), "foreign-instance-pp")
+		}
+		for _, hx := range [][]byte{blockHash(blk), hash} {
+			a.inject(L, a.mkP(byz, protocol.LEAN_HELIX_PREPARE, foreign, hh, 0, hx), "foreign-instance-prepare")
+			a.inject(L, a.mkC(byz, protocol.LEAN_HELIX_COMMIT, foreign, hh, 0, hx), "foreign-instance-commit")
+		}
+	}
+	a.toAll(a.mkP(byz, protocol.LEAN_HELIX_PREPARE, 100, 1, 0, hash), "byz-prepare")
+	a.toAll(a.mkC(byz, protocol.LEAN_HELIX_COMMIT, 100, 1, 0, hash), "byz-commit")
+	for guard := 0; guard < 3000 && len(net.pool) > 0; guard++ {
+		f := net.pool[0]
+		net.pool = net.pool[1:]
+		if string(f.To) == string(L.Id) {
+			held = append(held, f)
+			continue
+		}
+		if uint64(interfaces.ToConsensusMessage(f.Raw).BlockHeight()) > 2 {
+			continue
+		}
+		net.deliverFlight(f)
+	}
+	// the second height's proposal hash is now known: once more with that hash, still while the member is at height 1
+	for _, s := range a.seen() {
+		if pp, ok := s.m.(*interfaces.PreprepareMessage); ok && uint64(pp.BlockHeight()) == 2 {
+			h2 := pp.Content().SignedHeader().BlockHash()
+			a.inject(L, a.mkP(byz, protocol.LEAN_HELIX_PREPARE, foreign, 2, 0, h2), "foreign-instance-prepare")
+			a.inject(L, a.mkC(byz, protocol.LEAN_HELIX_COMMIT, foreign, 2, 0, h2), "foreign-instance-commit")
+			break
+		}
+	}
+	// now the laggard receives what it missed, oldest height first
+	for _, hh := range []uint64{1, 2} {
+		for _, f := range held {
+			if uint64(interfaces.ToConsensusMessage(f.Raw).BlockHeight()) == hh {
+				net.deliverFlight(f)
+			}
+		}
+	}
+	net.drainExcept("")
+	return net
+}
